@@ -22,8 +22,9 @@ LEVEL_TEXT = ('Real slimta Queue on dict, disk (pyaio), redis (redis-py vs in-pr
               'permanent failures and unexpected exceptions, with backoff tables that end in exhaustion, 1..4 '
               'recipients, 1..3 concurrent messages, empty senders, bounded/unbounded pools and gated storage '
               'calls; the disposition ledger is checked once every timer has been run down (bounded progress). '
-              'A second stratum runs the real SMTP/LMTP/pipe/HTTP relays behind the probe against scripted '
-              'next hops. Held = held on the histories reported.')
+              'A second stratum runs the real SMTP and LMTP relays (with their connection pools) behind the '
+              'probe against a scripted next hop (pipe/HTTP relay outcomes are judged by C11). Held = held on the '
+              'histories reported.')
 LEVEL_NOTE = ('Trusted: virtual clock shim, scripted relay probe (it is the witness of what the relay reported), '
               'backend doubles (MiniRedis, MemObjectStore), quiescence detection. Liveness is restated as bounded '
               'progress: backoff tables end with None, so after all timers ran nothing may be outstanding.')
@@ -32,7 +33,7 @@ RULE = ('case = one seeded history (config + PRNG seed). non-trivial = history w
         'attempts of one message; distinct by (backend, per-message outcome-sequence shape, pool config)')
 ASSUMPTIONS = ['the relay probe\'s per-recipient report is what "reported delivered by the relay" means',
                'a bounce factory returning None is a documented way to suppress a bounce and counts as reported']
-REQUIRED_HITS = ['attempt-outcomes-observed', 'histories-judged', 'recipients-ledgered']
+REQUIRED_HITS = ['attempt-outcomes-observed', 'histories-judged', 'recipients-ledgered', 'real-relay-histories']
 SHARDS = {'quick': 12, 'thorough': 16}
 BUDGET = {'quick': 70, 'thorough': 800}
 
@@ -59,9 +60,23 @@ def gen_cases(tier, seed, shard, nshards):
                    'bounce_none_p': rnd.choice([0, 0, 0.3]),
                    'prepop': rnd.choice([0, 0, 1]), 'steps': rnd.choice([20, 35])}
             yield {'cfg': cfg, 'seed': rnd.randrange(1 << 40)}
+    # real relay kinds (SMTP / LMTP clients with their connection pool) behind the probe,
+    # talking to the scripted next hop: what the Queue acts on is what the real relay reported
+    nreal = (96 if tier == 'quick' else 6000) // nshards
+    for i in range(max(1, nreal)):
+        cfg = {'backend': rnd.choice(['dict', 'dict', 'disk', 'cloud', 'redis']),
+               'real_relay': rnd.choice(['smtp', 'lmtp']),
+               'backoffs': rnd.choice([[0, None], [0, 3, None], [2, 2, 2, None]]),
+               'rcpts': (1, 4), 'nmsg': rnd.randint(1, 3), 'null_sender_p': 0.2,
+               'relay_idle': rnd.choice([None, 0.5]), 'relay_pool_size': rnd.choice([None, 1, 2]),
+               'steps': 20}
+        yield {'cfg': cfg, 'seed': rnd.randrange(1 << 40)}
 
 
 def _hits(lab, H, R):
+    if lab.cfg.get('real_relay'):
+        R.hit('real-relay-histories')
+        R.count('real-relay/' + lab.cfg['real_relay'])
     R.hit('recipients-ledgered', sum(len(i['rc']) for i in H.accepted.values()))
     R.count('bounces-enqueued', sum(1 for e in lab.events if e[1] == 'bounce_enqueued'))
     R.count('exhaustions', sum(1 for e in lab.events if e[1] == 'backoff' and e[4] is None))
